@@ -4,7 +4,7 @@
   fails (errors do not roll back).  Used for every invariant that the filesystem methods
   inherit from the persister and the four write operations.
 -/
-import Stfs.Model.Handle
+import Stfs.Model.File
 import Stfs.Proofs.IndexLemmas
 namespace Stfs
 
